@@ -2,6 +2,7 @@ use crate::GlobalRules;
 
 use crate::check_var::{check_rewriters_in_transform, CheckHint};
 use crate::fixer::Fixer;
+use crate::rule::referent_rule::ReferentRuleError;
 use crate::rule::DeserializeEnv;
 use crate::rule_core::{RuleCore, RuleCoreError, SerializableRuleCore};
 
@@ -139,6 +140,11 @@ impl<L: Language> SerializableRuleConfig<L> {
     for val in ser {
       if val.core.fix.is_none() {
         return Err(RuleConfigError::NoFixInRewriter(val.id.clone()));
+      }
+      if reg.get_rewriters().contains_key(&val.id) {
+        let duplicate = ReferentRuleError::DuplicateRule(val.id.clone());
+        let error = RuleCoreError::Rule(duplicate.into());
+        return Err(RuleConfigError::Rewriter(error, val.id.clone()));
       }
       let rewriter = val
         .core
